@@ -39,6 +39,9 @@ type symBaseline struct {
 	Funcs   map[string]map[string]string `json:"funcs"`   // pkg -> "recv|name" -> signature
 	Fields  map[string][]symField        `json:"fields"`  // "pkg.Type" -> fields in order
 	Globals map[string]map[string]string `json:"globals"` // pkg -> name -> type
+	// Callers: pkg -> "recv|name" -> same-package callers ("recv|name", function literals count as
+	// their enclosing function). Used only to tell apart several rename candidates of one signature.
+	Callers map[string]map[string][]string `json:"callers,omitempty"`
 }
 
 var (
@@ -163,6 +166,59 @@ func currentSymbols(p *Program) (*symBaseline, map[string]types.Object) {
 			}
 		}
 		b.Funcs[path] = fm
+		if p.SSA != nil {
+			if sp := p.SSA.Package(pkg.Types); sp != nil {
+				keyOf := func(fn *ssa.Function) string {
+					for fn != nil && fn.Parent() != nil {
+						fn = fn.Parent()
+					}
+					if fn == nil {
+						return ""
+					}
+					if o := fn.Origin(); o != nil {
+						fn = o
+					}
+					obj, _ := fn.Object().(*types.Func)
+					if obj == nil || obj.Pkg() != pkg.Types {
+						return ""
+					}
+					return recvString(obj.Type().(*types.Signature)) + "|" + obj.Name()
+				}
+				cm := map[string]map[string]bool{}
+				for _, fn := range p.SrcFuncs() {
+					ck := keyOf(fn)
+					if ck == "" || pkgOfFunc(fn) != sp {
+						continue
+					}
+					for _, c := range callsIn(fn) {
+						callee := staticCallee(c)
+						if callee == nil {
+							continue
+						}
+						k := keyOf(callee)
+						if k == "" || k == ck {
+							continue
+						}
+						if cm[k] == nil {
+							cm[k] = map[string]bool{}
+						}
+						cm[k][ck] = true
+					}
+				}
+				if b.Callers == nil {
+					b.Callers = map[string]map[string][]string{}
+				}
+				b.Callers[path] = map[string][]string{}
+				for k, set := range cm {
+					var l []string
+					for c := range set {
+						l = append(l, c)
+					}
+					sort.Strings(l)
+					b.Callers[path][k] = l
+				}
+			}
+		}
 		b.Globals[path] = gm
 	}
 	return b, objs
@@ -292,6 +348,38 @@ func computeRenames(p *Program) {
 		}
 		for k, vs := range vanished {
 			as := appeared[k]
+			if len(vs) == 1 && len(as) > 1 && base.Callers != nil && cur.Callers != nil {
+				// several new symbols of this signature (a function was renamed and split): the
+				// renamed one is the candidate that is called from where the old one was
+				want := base.Callers[path][k.recv+"|"+vs[0]]
+				var still []string
+				for _, w := range want {
+					if _, ok := cf[w]; ok {
+						still = append(still, w)
+					}
+				}
+				var match []string
+				if len(still) > 0 {
+					for _, a := range as {
+						have := map[string]bool{}
+						for _, c := range cur.Callers[path][k.recv+"|"+a] {
+							have[c] = true
+						}
+						all := true
+						for _, w := range still {
+							if !have[w] {
+								all = false
+							}
+						}
+						if all {
+							match = append(match, a)
+						}
+					}
+				}
+				if len(match) == 1 {
+					as = match
+				}
+			}
 			if len(vs) == 1 && len(as) == 1 {
 				obj := objs[path+"|"+k.recv+"|"+as[0]]
 				if obj != nil {
